@@ -262,6 +262,10 @@ def parse_log(text, h):
         if h.kind == "should_panic" and not failed:
             r["verdict"] = "FAIL"
             r["why"] = "no panic raised although one is required (should_panic harness)"
+        elif any("not currently supported by Kani" in f["desc"] for f in real_fail):
+            # the harness reached a construct Kani cannot model (FFI, inline asm): nothing is known, and it is never a violation
+            r["verdict"] = "INCONCLUSIVE"
+            r["why"] = "reached a construct Kani does not support: " + [f["desc"] for f in real_fail if "not currently supported" in f["desc"]][0][:160]
         elif real_fail:
             r["verdict"] = "FAIL"
             r["why"] = "; ".join("%s @ %s" % (f["desc"], f["loc"]) for f in real_fail[:3])
